@@ -142,6 +142,15 @@ Theorem C15_route_ignores_source :
 Proof. exact route_ignores_source. Qed.
 Print Assumptions C15_route_ignores_source.
 
+(* a listener with any number of connections: the record whose connection ID is registered for
+   connection a is handed to a whatever its source address (also when that address is the one
+   tracked for another live connection) *)
+Theorem C15_listener_routes_to_cid_owner :
+  forall (conns : list (bytes * N)) (id : bytes) (a : N),
+    lookup id conns = Some a -> forall src, get_conn_id conns src (Some id) = Some a.
+Proof. exact owner_gets_record. Qed.
+Print Assumptions C15_listener_routes_to_cid_owner.
+
 (* hypotheses are satisfiable: an honest migration in the model - a newest CID record from
    address 2 starts a challenge, the matching response 0.4 s later switches the address *)
 Example C15_migration_happens :
